@@ -37,7 +37,8 @@ KITCHEN = [
 ALL_INDENTED = [      # leader style, but every text line of a doccomment has extra leading spaces
     {"k": "function", "doc": 1, "params": ["a"], "doctext": ["  Indented first.", "", "    deeper", "  back"]},
     {"k": "close"},
-    {"k": "set", "doc": 1, "values": ["v"], "doctext": [" one space more"]},
+    {"k": "set", "doc": 1, "values": ['"first part \\\nsecond part"'], "doctext": [" one space more", "col1\tcol2\tcol3", "\ttab first"]},
+    {"k": "option", "doc": 1, "help": '"help \\\ncontinued"', "doctext": ["x\ty"]},
     {"k": "module", "name": "", "doctext": ["   module text indented", "   second"]},
 ]
 ALL_INDENTED = ALL_INDENTED[-1:] + ALL_INDENTED[:-1]
@@ -155,6 +156,7 @@ def check_module(job):
         for case in ("upper", "mixed"):
             cmp(f"command names in {case} case", render_with_base(cmakegen.items(evs, case)))
         cmp("CRLF line endings", render_with_base(its, {"eol": "\r\n"}), crlf=True)
+        cmp("arguments continued in column 0", render_with_base(its, {"arg_sep": "\n", "after_open": "\n", "before_close": "\n"}))
         cmp("arguments one per line with trailing comments", render_with_base(
             its, {"arg_sep": " # trailing\n    ", "after_open": "\n    ", "before_close": " # last\n"}))
     if mode == "pairs":
